@@ -388,7 +388,14 @@ HALF_CACHE = {'Spectra::DenseGenComplexShiftSolve': 'm_x_cache', 'Spectra::Spars
 def caches_stateless(ctx, rule='mutable-cache-overwritten-before-read'):
     D = DefUse(ctx)
     n = 0
-    for (tmpl, field), why in sorted(tables.MUTABLE_FIELDS.items()):
+    # every mutable field of the library, tabulated or not: a const operation (the operator application the solver calls) may
+    # change it, so whatever it reads of it must have been overwritten by the same application
+    keys = set(tables.MUTABLE_FIELDS)
+    for r in ctx.F.records.values():
+        for fl in r['fields']:
+            if fl.get('mutable') and (r.get('tmpl') or '').startswith('Spectra::'):
+                keys.add((r['tmpl'], fl['name']))
+    for (tmpl, field) in sorted(keys):
         fns = [f for f in ctx.F.concrete() if f.cls == tmpl and not f.d.get('ctor') and not f.d.get('dtor')]
         if not fns:
             ctx.note('%s has no analysed instantiation' % tmpl)
